@@ -241,7 +241,7 @@ func (f *FuncVC) applyMod(st *State, m resolvedMod, src string) {
 		if m.kind == "elems" && m.off != "" {
 			// only the window [off, off+len) of the backing array may change
 			q := f.sc.fresh("k")
-			f.sc.assert(fmt.Sprintf("(forall ((%s Int)) (! (=> (or (< %s %s) (>= %s (+ %s %s))) (= (select %s %s) (select (select %s %s) %s))) :pattern ((select %s %s))))", q, q, m.off, q, m.off, m.ln, fr, q, h, m.obj, q, fr, q))
+			f.fact(st, fmt.Sprintf("(forall ((%s Int)) (! (=> (or (< %s %s) (>= %s (+ %s %s))) (= (select %s %s) (select (select %s %s) %s))) :pattern ((select %s %s))))", q, q, m.off, q, m.off, m.ln, fr, q, h, m.obj, q, fr, q))
 		}
 		f.setHeap(st, n, sort, store(h, m.obj, fr))
 	}
@@ -284,6 +284,7 @@ func (f *FuncVC) callEffects(x *ssa.Call, hs *havocSet) {
 			return
 		}
 		f.pure++
+		f.noFacts++
 		tmp := &State{cells: map[*ssa.Alloc]*Val{}, heaps: map[string]string{}, wm: "0", pc: "true"}
 		ev := &Eval{f: f, st: tmp, old: tmp, env: map[string]*Val{}, lets: map[string]ast_Expr{}, bound: map[string]*Val{}}
 		ev.pkg = f.eng.typesPkg(con.PkgPath, f.fn.Pkg.Pkg)
@@ -302,6 +303,7 @@ func (f *FuncVC) callEffects(x *ssa.Call, hs *havocSet) {
 				hs.prefixes[m.heap] = true
 			}
 		}
+		f.noFacts--
 		f.pure--
 		return
 	}
@@ -429,7 +431,7 @@ func (f *FuncVC) appendBuiltin(st *State, x *ssa.Call) *Val {
 	newRef := f.alloc(st)
 	newCap := f.sc.fresh("acap")
 	f.sc.declare(newCap, "Int")
-	f.sc.assert(cmp(">=", newCap, newLen))
+	f.fact(st, cmp(">=", newCap, newLen))
 	rRef := f.sc.define("aref", "Int", ite(fits, ref, newRef))
 	rOff := f.sc.define("aoff", "Int", ite(fits, off, "0"))
 	rCap := f.sc.define("acap", "Int", ite(fits, cp, newCap))
@@ -447,7 +449,7 @@ func (f *FuncVC) appendBuiltin(st *State, x *ssa.Call) *Val {
 			base := f.sc.fresh("abase")
 			f.sc.declare(base, arraySort(1, sorts[i]))
 			q := f.sc.fresh("k")
-			f.sc.assert(fmt.Sprintf("(forall ((%s Int)) (! (=> (and (<= 0 %s) (< %s %s)) (= (select %s %s) (select %s (+ %s %s)))) :pattern ((select %s %s))))", q, q, q, ln, base, q, src, off, q, base, q))
+			f.fact(st, fmt.Sprintf("(forall ((%s Int)) (! (=> (and (<= 0 %s) (< %s %s)) (= (select %s %s) (select %s (+ %s %s)))) :pattern ((select %s %s))))", q, q, q, ln, base, q, src, off, q, base, q))
 			arr = ite(fits, src, base)
 			for k := int64(0); k < n.Int64(); k++ {
 				v := sel(sel(h, tref), arith("+", toff, num(k)))
@@ -463,7 +465,7 @@ func (f *FuncVC) appendBuiltin(st *State, x *ssa.Call) *Val {
 			} else {
 				tv = fmt.Sprintf("(select (select %s %s) (+ %s (- (- %s %s) %s)))", h, tref, toff, q, dstOff, ln)
 			}
-			f.sc.assert(fmt.Sprintf("(forall ((%s Int)) (! (and (=> (and (<= %s %s) (< %s (+ %s %s))) (= (select %s %s) (select %s (+ %s (- %s %s))))) (=> (and (<= (+ %s %s) %s) (< %s (+ %s %s))) (= (select %s %s) %s)) (=> (and %s (or (< %s (+ %s %s)) (>= %s (+ %s %s)))) (= (select %s %s) (select %s %s)))) :pattern ((select %s %s))))",
+			f.fact(st, fmt.Sprintf("(forall ((%s Int)) (! (and (=> (and (<= %s %s) (< %s (+ %s %s))) (= (select %s %s) (select %s (+ %s (- %s %s))))) (=> (and (<= (+ %s %s) %s) (< %s (+ %s %s))) (= (select %s %s) %s)) (=> (and %s (or (< %s (+ %s %s)) (>= %s (+ %s %s)))) (= (select %s %s) (select %s %s)))) :pattern ((select %s %s))))",
 				q,
 				dstOff, q, q, dstOff, ln, fr, q, src, off, q, dstOff,
 				dstOff, ln, q, q, dstOff, newLen, fr, q, tv,
@@ -538,7 +540,7 @@ func (f *FuncVC) copyBuiltin(st *State, x *ssa.Call) *Val {
 		} else {
 			sv = fmt.Sprintf("(select (select %s %s) (+ %s (- %s %s)))", h, s.Fs[0].T, s.Fs[1].T, q, d.Fs[1].T)
 		}
-		f.sc.assert(fmt.Sprintf("(forall ((%s Int)) (! (= (select %s %s) (ite (and (<= %s %s) (< %s (+ %s %s))) %s (select %s %s))) :pattern ((select %s %s))))",
+		f.fact(st, fmt.Sprintf("(forall ((%s Int)) (! (= (select %s %s) (ite (and (<= %s %s) (< %s (+ %s %s))) %s (select %s %s))) :pattern ((select %s %s))))",
 			q, fr, q, d.Fs[1].T, q, q, d.Fs[1].T, n, sv, old, q, fr, q))
 		f.setHeap(st, hn, hs, store(h, d.Fs[0].T, fr))
 	}
